@@ -552,7 +552,8 @@ def run_cases(run: lib.Run, audit: dict, scale: int = 1):
 
 WHOLE_OBLIGATION = ("C03_whole: Generated.Src.compile_decide (the current source text of compile(policy) + the closure decide(env) it returns) vs the "
                     "model's compiledDecide with compilerDefault := the literal of the source — set delegation and the prologue (default algorithm, "
-                    ".lower() raising) for every dict policy; see the header of Run/C03_whole.lean for what is proved of the index / bucket part")
+                    ".lower() raising) for every dict policy, three kernel-evaluated witnesses for the sort / the matched flags / the selection order; see the "
+                    "header of Run/C03_whole.lean for what is proved of the index / bucket part")
 
 
 def check(run: lib.Run, audit: dict) -> int:
